@@ -86,3 +86,20 @@ def decode_runs(buf: bytes, cell: int):
     if len(buf) % cell:
         runs.append(["G", 0, 0, 1])
     return runs
+
+
+def npat(cid: int, noise: int, off: int, n: int) -> bytes:
+    """Like cpat, but the first `noise` bytes of the unit are incompressible (deterministic pseudo-random), which
+    lets an encoder tune the compressed size of a unit byte by byte."""
+    import hashlib
+
+    if n <= 0:
+        return b""
+    out = []
+    if off < noise:
+        nz = hashlib.shake_128(b"verif-noise-%d" % cid).digest(noise)
+        out.append(nz[off : min(noise, off + n)])
+    if off + n > noise:
+        a = max(off, noise)
+        out.append(cpat(cid, a, off + n - a))
+    return b"".join(out)
